@@ -111,31 +111,33 @@ type Enc struct {
 	modItems  []frameItem
 	modParsed bool
 
-	loopWrites  map[int]map[string]bool
-	implUsed    []implUse
-	axioms      []Term
-	finalAx     []Term
-	sentinels   []Term
-	atHit       map[int]bool
-	returns     int
-	preCond     Term
-	deferIdx    map[*ssa.Defer]int
-	rangeOf     map[*ssa.Range]ssa.Value
-	retPoints   []retPoint
-	nEntryAsm   int
-	groupTail   []*Oblig
-	atVars      map[string]SV
-	gaddrs      []Term
-	labels      map[string]*State
-	lastRelease map[*LockDecl]*State
-	lastAcquire map[*LockDecl]*State
-	atArgTypes  []types.Type
-	atResTypes  []types.Type
-	siteOrd     map[ssa.Instruction]int
-	siteOrdQ    map[ssa.Instruction]int
-	curInstr    ssa.Instruction
-	callLog     map[string]SV
-	replayTerm  map[string]SV
+	loopWrites     map[int]map[string]bool
+	implUsed       []implUse
+	axioms         []Term
+	finalAx        []Term
+	sentinels      []Term
+	atHit          map[int]bool
+	returns        int
+	preCond        Term
+	deferIdx       map[*ssa.Defer]int
+	rangeOf        map[*ssa.Range]ssa.Value
+	retPoints      []retPoint
+	loopCovers     []retPoint
+	loopCoverNames []string
+	nEntryAsm      int
+	groupTail      []*Oblig
+	atVars         map[string]SV
+	gaddrs         []Term
+	labels         map[string]*State
+	lastRelease    map[*LockDecl]*State
+	lastAcquire    map[*LockDecl]*State
+	atArgTypes     []types.Type
+	atResTypes     []types.Type
+	siteOrd        map[ssa.Instruction]int
+	siteOrdQ       map[ssa.Instruction]int
+	curInstr       ssa.Instruction
+	callLog        map[string]SV
+	replayTerm     map[string]SV
 }
 
 type loopInfo struct {
@@ -913,6 +915,10 @@ func (e *Enc) analyseCFG() {
 		pi, pj := e.loopPos(heads[i]), e.loopPos(heads[j])
 		if pi != pj {
 			return pi < pj
+		}
+		// same first position: the enclosing (larger) loop comes first
+		if ni, nj := len(e.loops[heads[i]].blocks), len(e.loops[heads[j]].blocks); ni != nj {
+			return ni > nj
 		}
 		return heads[i].Index < heads[j].Index
 	})
